@@ -158,6 +158,21 @@ def fault_table(ctx, max_calls):
                                          f"log faults at {fl}: {b['nlog']} log calls / {b['ntraces']} traces kept, expected {n} / {expect}", raise_=False)
 
 
+def inspection_fault_table(ctx):
+    """objects whose every hook raises, in every role (incl. a module global named like the called function and a
+    callable-looking local of a caller frame, where function lookup meets them): the failure stays inside the tracer"""
+    for name in ("Hookable", "GetAttr", "ClassProp", "H1", "M1"):
+        if name not in T.CATALOGUE:
+            continue
+        for role in WL.ROLES:
+            for exit_exc in (False, True):
+                spec = ["FAULT", name, role, [], False, exit_exc, False, True]
+                a = run_wl(name, "TList", role, False, 0, (), False, False, exit_exc, True)
+                b = run_wl(name, "TList", role, True, 0, (), False, False, exit_exc, True)
+                ctx.case(spec, True, ["fault-plan", "inspection-fault=True", "inspection-fault-role:" + role])
+                compare(ctx, spec, a, b, role, faults=True)
+
+
 # ---- synthesised programs with tripwire arguments --------------------------------------------------
 def trip_values():
     return st.sampled_from(sorted(T.CATALOGUE)).map(lambda n: ["trip", n])
@@ -198,6 +213,8 @@ def shard(ctx):
         tripwire_table(ctx)
     if ctx.shard == 1 % ctx.nshards:
         fault_table(ctx, 4 if q else 12)
+    if ctx.shard == 2 % ctx.nshards:
+        inspection_fault_table(ctx)
     sc = tracerun.Scratch("c03-")
     try:
         def factory(ctx):
